@@ -379,7 +379,9 @@ fn ndp_step(base: &[u8], it: &mut NdpOptionsIterator) -> String {
 
 /// iterate an option area (`area` lies inside `base`): at most len/8+3 steps, then two more calls.
 fn ndp_iterate(base: &[u8], mut it: NdpOptionsIterator) -> String {
-    let _ = format!("{:?}", it);
+    // (the Debug rendering walks a copy of the iterator with no bound of its own: it is asked for only after the
+    // bounded walk below has shown that the iteration ends)
+    let at_start = it.clone();
     let max = it.rest().len() / 8 + 3;
     let mut items: Vec<String> = Vec::new();
     let mut steps = 0usize;
@@ -400,6 +402,7 @@ fn ndp_iterate(base: &[u8], mut it: NdpOptionsIterator) -> String {
     if runaway {
         return format!("{};runaway", body);
     }
+    let _ = format!("{:?}", at_start);
     let a = ndp_step(base, &mut it);
     let b = ndp_step(base, &mut it);
     format!("{};tail={},{}", body, a, b)
